@@ -285,6 +285,77 @@ func planC09(tier string, root *simcore.RNG) *plan {
 			}
 		}
 	}
+	// slow consumers in real time: renders with many batches (2D at 100..160 cells, 3D at
+	// 24..32) whose writer goroutine sleeps 3..6 ms at every k-th arrival at a hook site
+	{
+		r0 := root.Fork()
+		have := map[string]bool{}
+		for _, s := range cat {
+			have[s.key()] = true
+		}
+		list := []c09sig{
+			{"msu", pick(r0, model2Names), "svg", 100 + r0.Intn(60)}, {"msq", pick(r0, model2Names), "dxf", 100 + r0.Intn(60)},
+			{"msq", pick(r0, model2Names), "svg", 100 + r0.Intn(60)}, {"dc2", pick(r0, model2Names), "dxf", 100 + r0.Intn(60)},
+			{"mco", pick(r0, []string{"sphere-box", "csg", "cube"}), "stl", 24 + r0.Intn(8)}, {"mcu", pick(r0, []string{"sphere-box", "csg", "cube"}), "stl", 24 + r0.Intn(8)},
+		}
+		reps := 2
+		if tier == "thorough" {
+			reps = 12
+		}
+		for _, s := range list {
+			if !have[s.key()] {
+				have[s.key()] = true
+				cat = append(cat, s)
+				pl.scenarios = append(pl.scenarios, &Scenario{Prop: "C09", Family: "render", Seed: r0.Uint64(), Groups: [][]Job{{s.job(1)}},
+					Sched: Sched{Policy: "fifo"}, Sites: map[string]uint32{}, Env: Env{GOMAXPROCS: 16, CPUs: 16}, Note: "canonical"})
+			}
+			for k := 0; k < reps; k++ {
+				r := root.Fork()
+				sites := map[string]uint32{"close": 1, "go.start": 1}
+				for _, hs := range sinkSites(s.sink) {
+					sites[hs] = 1
+				}
+				pl.scenarios = append(pl.scenarios, &Scenario{Prop: "C09", Family: "render", Seed: r.Uint64(), Groups: [][]Job{{s.job(1)}},
+					Sites: sites, Sched: Sched{Policy: pick(r, []string{"fifo", "uniform", "lifo"}), Seed: r.Uint64()},
+					Env: Env{GOMAXPROCS: pick(r, []int{1, 2, 16}), CPUs: pick(r, []int{1, 4, 16})}, Note: "slow-consumer",
+					ConsStallMs: 3 + r.Intn(4), ConsStallEvery: pick(r, []int{1, 2, 3}), StepCap: 4000000})
+			}
+		}
+	}
+	// the whole shape catalogue (every exported constructor and option): each entry is
+	// built and rendered in a canonical process and again in other fresh processes
+	// under another configuration - construction that depends on map iteration
+	// order, addresses, the pid or the clock shows as a different render
+	{
+		r0 := root.Fork()
+		names := catalogueNames()
+		every, nv := 3, 1
+		if tier == "thorough" {
+			every, nv = 1, 3
+		}
+		rot := r0.Intn(every)
+		for ni, name := range names {
+			if ni%every != rot {
+				continue
+			}
+			e := &catalogue[catalogueIndex[name]]
+			cells := 9
+			if e.Heavy {
+				cells = 6
+			}
+			s := c09sig{pick(r0, []string{"mcu", "mcu", "mco"}), "cat:" + name, "tri", cells}
+			cat = append(cat, s)
+			pl.scenarios = append(pl.scenarios, &Scenario{Prop: "C09", Family: "render", Seed: r0.Uint64(), Groups: [][]Job{{s.job(1)}},
+				Sched: Sched{Policy: "fifo"}, Sites: map[string]uint32{}, Env: Env{GOMAXPROCS: 16, CPUs: 16}, Note: "canonical"})
+			for k := 0; k < nv; k++ {
+				r := root.Fork()
+				pl.scenarios = append(pl.scenarios, &Scenario{Prop: "C09", Family: "render", Seed: r.Uint64(), Groups: [][]Job{{s.job(1)}},
+					Sites: map[string]uint32{"close": 1, "worker.start": 1, "mc.sent": 1, "cons.tri": 1},
+					Sched: Sched{Policy: pick(r, []string{"uniform", "lifo", "fifo"}), Seed: r.Uint64()},
+					Env: Env{GOMAXPROCS: pick(r, []int{1, 4, 16}), CPUs: pick(r, []int{2, 4, 16})}, Note: "catalogue"})
+			}
+		}
+	}
 	// composites rendered by the worker pool with the evaluations parked inside
 	// the model (between the children of a union / intersection / array)
 	{
@@ -381,7 +452,7 @@ func planC09(tier string, root *simcore.RNG) *plan {
 		pl.scenarios = append(pl.scenarios, sc)
 	}
 	pl.extra = map[string]any{"signatures": len(cat), "canonical_runs": len(cat), "setter_histories": len(pairs)}
-	pl.rule = "signatures (renderer x model x resolution x sink) drawn from uniform/octree marching cubes, uniform/quadtree marching squares, 2D and 3D dual contouring x 8 3D / 5 2D models x ToTriangles/ToSTL/To3MF/ToDXF/ToSVG. Each signature is rendered once canonically (fresh process, fifo, no optional yields, all CPUs); variant episodes (fresh processes) render 1..3 signatures concurrently after 0..3 preceding renders under a seeded schedule (uniform, pct, starve(one slice of the lattice | evaluations about to store | consumer | renderer | one job), burst, lifo) with evaluations parked before and after the real Evaluate, GOMAXPROCS in {1,2,4,16} and CPU affinity in {1,2,4,16} (= worker pool size). A third of the variant episodes, and a fixed set of histories that render both setter-reachable states of a model one after the other, keep renderer values and the model object in an episode-wide pool, as a program that holds them in variables does. Oracle: every job's output digest (triangle sequence bits; STL/DXF/SVG bytes; decoded 3MF) equals the canonical digest of its signature. Non-trivial = a variant episode in which the scheduler had >= 2 choices at >= 1 step; distinct = trace hash."
+	pl.rule = "signatures (renderer x model x resolution x sink) drawn from uniform/octree marching cubes, uniform/quadtree marching squares, 2D and 3D dual contouring x 8 3D / 5 2D models x ToTriangles/ToSTL/To3MF/ToDXF/ToSVG. Each signature is rendered once canonically (fresh process, fifo, no optional yields, all CPUs); variant episodes (fresh processes) render 1..3 signatures concurrently after 0..3 preceding renders under a seeded schedule (uniform, pct, starve(one slice of the lattice | evaluations about to store | consumer | renderer | one job), burst, lifo) with evaluations parked before and after the real Evaluate, GOMAXPROCS in {1,2,4,16} and CPU affinity in {1,2,4,16} (= worker pool size). A third of the variant episodes, and a fixed set of histories that render both setter-reachable states of a model one after the other, keep renderer values and the model object in an episode-wide pool, as a program that holds them in variables does. Every third entry of the shape catalogue (all in the thorough tier; every exported constructor and blend option) is also built and rendered in a canonical and in 1..3 other fresh processes under other configurations. Oracle: every job's output digest (triangle sequence bits; STL/DXF/SVG bytes; decoded 3MF) equals the canonical digest of its signature. Non-trivial = a variant episode in which the scheduler had >= 2 choices at >= 1 step; distinct = trace hash."
 	pl.nontriv = func(o *runOut) (bool, string) {
 		if o.res == nil || o.sc.Note == "canonical" {
 			return false, ""
